@@ -296,10 +296,9 @@ class SimulationProblem(DataStoreAccessor):
         delay_time_fun = ca.Function(
             "delay_time_function", parameter_symbols, delay_time_expressions
         )
-        delay_time_values = delay_time_fun(*parameter_values)
-        if len(delay_time_expressions) == 1:
-            return [delay_time_values]
-        return list(delay_time_values)
+        # Use call() with a list, such that the result is a list of values
+        # regardless of the number of parameters and delay expressions.
+        return list(delay_time_fun.call(parameter_values))
 
     def _create_delay_expression_states(self):
         """
